@@ -35,6 +35,9 @@ def tower(i: int, residue: int, tcp_at: t.Optional[str]) -> t.List[epm.Floor]:
     port = [49670, 49672, 49667, 49675, 50001, 49152, 135, 49664][i % 8] + 8 * (i // 8)
     base: t.List[epm.Floor] = [epm.uuid_floor(rpc.ISD_KEY), epm.uuid_floor(rpc.NDR), epm.rpc_co_floor(0)]
     others: t.List[epm.Floor] = [(epm.P_UDP, b"", struct.pack(">H", 500 + i)), epm.ip_floor(0x0A000001 + i), (epm.P_PIPE, b"", b"\\pipe\\x\x00")][: 1 + i % 3]
+    if i % 2:
+        # a floor of a protocol the client has no name for (ncacn_http 0x1F, an arbitrary id): kept as opaque data, never an obstacle
+        others = others[:-1] + [((0x1F, 0x55, 0x11)[i % 3], b"", struct.pack(">H", 593 + i))]
     tcp = epm.tcp_floor(port)
     if tcp_at == "3":
         floors = base + [tcp] + others
